@@ -17,6 +17,16 @@ pub mod linux;
 #[cfg(windows)]
 pub mod windows;
 
+/// Verification hook H6 (compiled only with `--cfg azure_guestproxyagent_verif`): the verification
+/// drivers are compiled as a module of this crate, so that they keep working when an item they call
+/// becomes `pub(crate)`.  The file is named by the VERIF_DRIVERS_RS environment variable at build time.
+#[cfg(azure_guestproxyagent_verif)]
+extern crate self as gpaext;
+#[cfg(azure_guestproxyagent_verif)]
+pub mod verif_drivers {
+    include!(env!("VERIF_DRIVERS_RS"));
+}
+
 use clap::{Parser, Subcommand};
 use proxy_agent_shared::misc_helpers;
 use std::env;
